@@ -73,6 +73,21 @@ class Popen(AgentExecutingComponent):
 
     # --------------------------------------------------------------------------
     #
+    def is_canceled(self, task):
+
+        # tasks which get canceled on intake (see `work_cb`) already hold the
+        # resources the scheduler assigned to them: release those resources
+        canceled = super().is_canceled(task)
+
+        if canceled is True:
+            self._prof.prof('unschedule_start', uid=task['uid'])
+            self.publish(rpc.AGENT_UNSCHEDULE_PUBSUB, task)
+
+        return canceled
+
+
+    # --------------------------------------------------------------------------
+    #
     def cancel_task(self, task):
 
         # was the task even started?
